@@ -67,7 +67,8 @@ private theorem all_checked (m : Nat) (hm : m < 512) : allB m = true := by
   · exact chunk_sound 448 480 sym_chunk14 m (by omega) (by omega)
   · exact chunk_sound 480 512 sym_chunk15 m (by omega) (by omega)
 
-private theorem facts (m : Nat) (hm : m < 512) : Facts m := facts_of (all_checked m hm)
+/-- Everything the kernel evaluated for guard assignment `m` (all 16 chunk modules), as propositions. -/
+theorem facts (m : Nat) (hm : m < 512) : Facts m := facts_of (all_checked m hm)
 
 /-- **Balanced — every session, every value, every exit path.**  For every capability/option
     assignment `m`, all kitty keyboard flags, every user cursor style, every application id the
